@@ -860,7 +860,8 @@ def c12_corpus(tier, seed):
 
 
 # ------------------------------------------------------------------ expander and probe
-def build_expander():
+def build_expander(features=None, target='target-expander'):
+    """features None: educe's default (all twelve); a list: `--no-default-features --features ..` (C18 subset differential)"""
     src = os.path.join(VERIF, 'tools', 'expander')
     d = src
     if os.path.abspath(REPO) != '/repo':
@@ -870,10 +871,18 @@ def build_expander():
         shutil.copytree(src, d, ignore=shutil.ignore_patterns('target'))
         ct = open(os.path.join(d, 'Cargo.toml')).read().replace('path = "/repo/src/lib.rs"', f'path = "{os.path.join(REPO, "src", "lib.rs")}"')
         open(os.path.join(d, 'Cargo.toml'), 'w').write(ct)
-    rc, out = sh(['cargo', 'build', '--release', '--offline', '--target-dir', os.path.join(WORK, 'target-expander')], cwd=d, timeout=1200)
+    cmd = ['cargo', 'build', '--release', '--offline', '--target-dir', os.path.join(WORK, target)]
+    if features is not None:
+        cmd += ['--no-default-features', '--features', ' '.join(features)]
+    rc, out = sh(cmd, cwd=d, timeout=1200)
     if rc != 0:
         return None, out[-3000:]
-    return os.path.join(WORK, 'target-expander', 'release', 'expand'), ''
+    exe = os.path.join(WORK, target, 'release', 'expand')
+    if features is not None:
+        dst = exe + '-' + ('_'.join(features) or 'none')
+        shutil.copy(exe, dst)
+        return dst, ''
+    return exe, ''
 
 
 def expand(exe, reqs):
